@@ -561,7 +561,8 @@ func (e *c02Env) part2(version uint, mode CompressionMode, scripts [][]string, w
 		// written with the extra verification switched off and an id handed in by the caller (what bad memory between
 		// hashing and encrypting produces).  Every read of that blob has to report an error.
 		{
-			orig := rb(300, 42+int64(bt))
+			// compressible content: with compression on the blob is stored compressed (the other two are not)
+			orig := bytes.Repeat([]byte(fmt.Sprintf("{\"name\":\"verif-%d\",\"type\":\"file\",\"mode\":420},", bt)), 8)[:300]
 			wrong := restic.BlobHandle{Type: bt, ID: c02Sha(orig)}
 			damaged := append([]byte{}, orig...)
 			damaged[17] ^= 0x04
@@ -778,10 +779,10 @@ func TestVerif_C02(t *testing.T) {
 	t0 = time.Now()
 	// part 2: reads under fault scripts
 	e.part2(1, CompressionAuto, scripts, kit.Thorough())
-	e.part2(2, CompressionOff, scripts, true)
+	e.part2(2, CompressionAuto, scripts, true)
 	res.Count("ms_part2", int(time.Since(t0).Milliseconds()))
 	if kit.Thorough() {
-		e.part2(2, CompressionAuto, scripts, true)
+		e.part2(2, CompressionOff, scripts, true)
 	}
 	for k, v := range e.n {
 		res.Count("records_"+k, v)
